@@ -159,10 +159,10 @@ class MapM:
 
 
 class Closure:
-    __slots__ = ("span", "fields", "names")
+    __slots__ = ("span", "fields", "names", "tparams")
 
-    def __init__(s, span, fields, names):
-        s.span, s.fields, s.names = span, fields, names
+    def __init__(s, span, fields, names, tparams=None):
+        s.span, s.fields, s.names, s.tparams = span, fields, names, tparams
 
     def __repr__(s):
         return "{closure@%s}" % s.span
